@@ -389,6 +389,14 @@ func GenDoc(r *rand.Rand, p *AP, kind int) (toks []Tok, b []byte) {
 			}
 		}
 		toks = g.wellNested(0, 2+r.Intn(8))
+		if r.Intn(40) == 0 { // one run of character data longer than any buffer a tokenizer might be capped at
+			long := g.mark("L") + strings.Repeat("long text ", 7000)
+			if n := len(toks); n > 0 && toks[n-1].T == "text" {
+				toks[n-1].D += " " + long
+			} else {
+				toks = append(toks, Tok{T: "text", D: long, A: []Attr{}})
+			}
+		}
 		if r.Intn(12) == 0 { // a byte order mark (or two) in front: character data like any other
 			bom := []string{"\ufeff", "\ufeff\ufeff"}[r.Intn(2)]
 			if len(toks) > 0 && toks[0].T == "text" {
